@@ -1,36 +1,196 @@
-import SpecterModel.C39.Model
+import SpecterModel.C39.Lemmas
 /-!
 # C39 — the in-memory stream pipe is a faithful byte stream
+
+Theorems about the model of `util/bufconn/bufconn.go` in `Model.lean` (ring buffer exactly as coded +
+small-step layer with the two condition variables), for ALL capacities ≥ 1 and ALL event sequences
+(= all write chunkings, read sizes and reader/writer interleavings at mutex granularity).
+`cap = 0` is a stated exclusion (`Write` of a non-empty slice would spin; the transport uses 8192).
 -/
 namespace Specter.C39
 
-/-! ### list slices and splicing -/
+/-- The global invariant of the small-step system (with ghost trace). -/
+structure SInv (c : Nat) (t : Trace) : Prop where
+  inv : Inv t.s.p
+  cap_eq : t.s.p.cap = c
+  /-- conservation: delivered ++ buffered = copied in -/
+  conserve : t.got ++ t.s.p.abs = t.put
+  /-- a reader parked in `rwait` has nothing to return: no lost wake-up -/
+  rwait : ∀ n, t.s.rt = .waiting n →
+    t.s.p.abs = [] ∧ t.s.p.closed = false ∧ t.s.p.writeClosed = false ∧ t.s.p.rtimedout = false
+  /-- a writer parked in `wwait` cannot make progress: no lost wake-up -/
+  wwait : ∀ rest n, t.s.wt = .waiting rest n →
+    rest ≠ [] ∧ t.s.p.full = true ∧ t.s.p.closed = false ∧ t.s.p.writeClosed = false ∧ t.s.p.wtimedout = false
+  /-- a writer that was woken still has bytes to write -/
+  wwoken : ∀ rest n, t.s.wt = .woken rest n → rest ≠ []
 
-def slice (l : List Nat) (a b : Nat) : List Nat := (l.drop a).take (b - a)
+theorem wakeR_not_waiting (t : RTh) (n : Nat) : wakeR t ≠ .waiting n := by cases t <;> simp [wakeR]
+theorem wakeW_not_waiting (t : WTh) (r : List Nat) (n : Nat) : wakeW t ≠ .waiting r n := by cases t <;> simp [wakeW]
+theorem wakeW_woken (t : WTh) (r : List Nat) (n : Nat) (h : wakeW t = .woken r n) : t = .waiting r n ∨ t = .woken r n := by
+  cases t <;> simp_all [wakeW]
+theorem wwoken_wake {c : Nat} (t : Trace) (h : SInv c t) (r : List Nat) (n : Nat) (hw : wakeW t.s.wt = .woken r n) : r ≠ [] := by
+  rcases wakeW_woken _ _ _ hw with a | a
+  · exact (h.wwait r n a).1
+  · exact h.wwoken r n a
 
-def splice (l : List Nat) (w : Nat) (ys : List Nat) : List Nat := l.take w ++ ys ++ l.drop (w + ys.length)
+theorem sinv_rAttempt {c : Nat} (t : Trace) (n : Nat) (h : SInv c t) :
+    let q := rAttempt t.s n
+    SInv c { s := q.1, got := t.got ++ q.2.2.1, put := t.put ++ q.2.2.2 } := by
+  have rs := readStep_spec t.s.p n h.inv
+  unfold rAttempt
+  generalize readStep t.s.p n = q at rs
+  obtain ⟨qp, qo, qs⟩ := q
+  obtain ⟨i, f, m⟩ := rs
+  unfold sameFlags at f
+  simp only at i f m
+  cases qo <;> simp only at m ⊢
+  · -- data
+    obtain ⟨m1, m2, m3, m4, m5⟩ := m
+    refine ⟨i, by rw [← h.cap_eq]; exact f.2.2.2.2, ?_, ?_, ?_, ?_⟩
+    · simp only [List.append_nil, List.append_assoc]; rw [← m2]; exact h.conserve
+    · intro k hk; simp at hk
+    · intro rest k hk
+      simp only at hk
+      by_cases cs : qs = true
+      · simp only [cs, if_true] at hk; exact absurd hk (wakeW_not_waiting _ _ _)
+      · simp only [cs, if_false, Bool.false_eq_true] at hk
+        have := (h.wwait rest k hk).2.1
+        rw [m5] at cs; exact absurd this cs
+    · intro rest k hk
+      simp only at hk
+      by_cases cs : qs = true
+      · simp only [cs, if_true] at hk; exact wwoken_wake t h rest k hk
+      · simp only [cs, if_false, Bool.false_eq_true] at hk; exact h.wwoken rest k hk
+  · obtain ⟨m1, _, _, _, hq⟩ := m
+    subst m1; subst hq
+    exact ⟨i, h.cap_eq, by simpa using h.conserve, by intro k hk; simp at hk, fun rest k hk => h.wwait rest k (by simpa using hk), fun rest k hk => h.wwoken rest k (by simpa using hk)⟩
+  · obtain ⟨m1, _, hq⟩ := m
+    subst m1; subst hq
+    exact ⟨i, h.cap_eq, by simpa using h.conserve, by intro k hk; simp at hk, fun rest k hk => h.wwait rest k (by simpa using hk), fun rest k hk => h.wwoken rest k (by simpa using hk)⟩
+  · obtain ⟨m1, _, _, _, _, hq⟩ := m
+    subst m1; subst hq
+    exact ⟨i, h.cap_eq, by simpa using h.conserve, by intro k hk; simp at hk, fun rest k hk => h.wwait rest k (by simpa using hk), fun rest k hk => h.wwoken rest k (by simpa using hk)⟩
+  · obtain ⟨m1, b1, b2, b3, b4, hq⟩ := m
+    subst m1
+    exact ⟨i, h.cap_eq, by simpa using h.conserve, fun k _ => ⟨b2, b1, b3, b4⟩, fun rest k hk => h.wwait rest k (by simpa using hk), fun rest k hk => h.wwoken rest k (by simpa using hk)⟩
 
-theorem splice_length (l ys : List Nat) (w : Nat) (h : w + ys.length ≤ l.length) :
-    (splice l w ys).length = l.length := by
-  unfold splice; simp; omega
+theorem sinv_wFinish {c : Nat} (t : Trace) (bs : List Nat) (n : Nat) (q : Pipe × WOut × Bool × List Nat)
+    (h : SInv c t) (ws : WriteSpec t.s.p bs n false [] q) :
+    SInv c { s := (wFinish t.s q).1, got := t.got ++ (wFinish t.s q).2.2.1, put := t.put ++ (wFinish t.s q).2.2.2 } := by
+  obtain ⟨qp, qo, qs, qc⟩ := q
+  obtain ⟨i, f, k, hk, a, cp, sg, m⟩ := ws
+  unfold sameFlags at f
+  simp only at i f a cp sg m
+  have hcap : qp.cap = c := by rw [← h.cap_eq]; exact f.2.2.2.2
+  have hcons : t.got ++ [] ++ qp.abs = t.put ++ qc := by
+    rw [a, cp, ← h.conserve]; simp
+  have hrw : ∀ m, (if qs = true then wakeR t.s.rt else t.s.rt) = RTh.waiting m →
+      qp.abs = [] ∧ qp.closed = false ∧ qp.writeClosed = false ∧ qp.rtimedout = false := by
+    intro m hm
+    by_cases cs : qs = true
+    · simp only [cs, if_true] at hm; exact absurd hm (wakeR_not_waiting _ _)
+    · simp only [cs] at hm
+      obtain ⟨r1, r2, r3, r4⟩ := h.rwait m hm
+      have he := (empty_iff _ h.inv).mpr r1
+      rw [he] at sg
+      have hk0 : k = 0 := by
+        cases hq : qs
+        · rw [hq] at sg; simp at sg; exact sg
+        · exact absurd hq cs
+      subst hk0
+      refine ⟨by rw [a, r1]; simp, by rw [f.1]; exact r2, by rw [f.2.1]; exact r3, by rw [f.2.2.1]; exact r4⟩
+  unfold wFinish
+  cases qo <;> simp only at m ⊢
+  case block rest mm =>
+    obtain ⟨m1, m2, m3, m4, m5, m6, m7⟩ := m
+    refine ⟨i, hcap, hcons, hrw, ?_, by intro r' n' hw; simp at hw⟩
+    intro r' n' hw
+    simp only [WTh.waiting.injEq] at hw
+    obtain ⟨e1, e2⟩ := hw
+    subst e1
+    exact ⟨m2, m4, by rw [f.1]; exact m5, by rw [f.2.1]; exact m6, by rw [f.2.2.2.1]; exact m7⟩
+  all_goals exact ⟨i, hcap, hcons, hrw, by intro r' n' hw; simp at hw, by intro r' n' hw; simp at hw⟩
 
-theorem splice_get (l ys : List Nat) (w i : Nat) (h : w + ys.length ≤ l.length) :
-    (splice l w ys)[i]? = if i < w then l[i]? else if i < w + ys.length then ys[i - w]? else l[i]? := by
-  unfold splice
-  by_cases h1 : i < w
-  · simp [h1, List.getElem?_append, List.getElem?_take]
-    intro h2; omega
-  · by_cases h2 : i < w + ys.length
-    · simp [h1, h2, List.getElem?_append, List.getElem?_take, List.length_take]
-      have : min w l.length = w := by omega
-      simp [this, h1, h2]
-    · simp [h1, h2, List.getElem?_append, List.getElem?_take, List.length_take]
-      have : min w l.length = w := by omega
-      simp [this, h1, h2]
-      congr 1; omega
+theorem sinv_flag {c : Nat} (t : Trace) (p' : Pipe) (rt' : RTh) (wt' : WTh) (h : SInv c t)
+    (hd : p'.arr = t.s.p.arr ∧ p'.len = t.s.p.len ∧ p'.w = t.s.p.w ∧ p'.r = t.s.p.r)
+    (hr : ∀ n, rt' = .waiting n → t.s.rt = .waiting n ∧ p'.closed = t.s.p.closed ∧
+        p'.writeClosed = t.s.p.writeClosed ∧ (p'.rtimedout = t.s.p.rtimedout ∨ p'.rtimedout = false))
+    (hw : ∀ r n, wt' = .waiting r n → t.s.wt = .waiting r n ∧ p'.closed = t.s.p.closed ∧
+        p'.writeClosed = t.s.p.writeClosed ∧ (p'.wtimedout = t.s.p.wtimedout ∨ p'.wtimedout = false))
+    (hk : wt' = t.s.wt ∨ wt' = wakeW t.s.wt) :
+    SInv c { s := { p := p', rt := rt', wt := wt' }, got := t.got ++ [], put := t.put ++ [] } := by
+  obtain ⟨d1, d2, d3, d4⟩ := sameData t.s.p p' hd
+  refine ⟨d1 h.inv, by rw [← h.cap_eq]; simp only [Pipe.cap, hd.1], by simp only [List.append_nil, d2]; exact h.conserve, ?_, ?_, ?_⟩
+  · intro n hn
+    obtain ⟨a, b, c, d⟩ := hr n hn
+    obtain ⟨r1, r2, r3, r4⟩ := h.rwait n a
+    refine ⟨by simp only [d2]; exact r1, by simp only [b]; exact r2, by simp only [c]; exact r3, ?_⟩
+    simp only; cases d with
+    | inl d => rw [d]; exact r4
+    | inr d => exact d
+  · intro r n hn
+    obtain ⟨a, b, c, d⟩ := hw r n hn
+    obtain ⟨r0, r1, r2, r3, r4⟩ := h.wwait r n a
+    refine ⟨r0, by simp only [d3]; exact r1, by simp only [b]; exact r2, by simp only [c]; exact r3, ?_⟩
+    simp only; cases d with
+    | inl d => rw [d]; exact r4
+    | inr d => exact d
+  · intro r n hn
+    simp only at hn
+    rcases hk with e | e
+    · rw [e] at hn; exact h.wwoken r n hn
+    · rw [e] at hn; exact wwoken_wake t h r n hn
 
-theorem slice_get (l : List Nat) (a b i : Nat) :
-    (slice l a b)[i]? = if i < b - a then l[a + i]? else none := by
-  unfold slice; simp [List.getElem?_take, List.getElem?_drop]
+theorem sinv_id {c : Nat} (t : Trace) (h : SInv c t) : SInv c { s := t.s, got := t.got ++ [], put := t.put ++ [] } := by
+  simpa using h
 
-end Specter.C39
+/-- Every atomic step preserves the invariant. -/
+theorem sinv_step {c : Nat} (t : Trace) (e : Ev) (h : SInv c t) : SInv c (t.step e) := by
+  unfold Trace.step step
+  cases e with
+  | read n =>
+    simp only
+    cases hrt : t.s.rt <;> simp only
+    · exact sinv_rAttempt t n h
+    · exact sinv_id t h
+    · exact sinv_id t h
+  | rresume =>
+    simp only
+    cases hrt : t.s.rt <;> simp only
+    · exact sinv_id t h
+    · exact sinv_id t h
+    · exact sinv_rAttempt t _ h
+  | write bs =>
+    simp only
+    cases hwt : t.s.wt <;> simp only
+    · rcases writeStart_spec t.s.p bs h.inv with ⟨c, e⟩ | ⟨c, ws⟩
+      · rw [e]; unfold wFinish; simp only [Bool.false_eq_true, if_false]
+        exact sinv_flag t t.s.p t.s.rt .idle h ⟨rfl, rfl, rfl, rfl⟩
+          (fun n hn => ⟨hn, rfl, rfl, Or.inl rfl⟩) (fun r n hn => by simp at hn) (Or.inl hwt.symm)
+      · exact sinv_wFinish t bs 0 _ h ws
+    · exact sinv_id t h
+    · exact sinv_id t h
+  | wresume =>
+    simp only
+    cases hwt : t.s.wt <;> simp only
+    · exact sinv_id t h
+    · exact sinv_id t h
+    · exact sinv_wFinish t _ _ _ h (writeResume_spec t.s.p _ _ h.inv)
+  | close =>
+    exact sinv_flag t _ _ _ h ⟨rfl, rfl, rfl, rfl⟩
+      (fun n hn => absurd hn (wakeR_not_waiting _ _)) (fun r n hn => absurd hn (wakeW_not_waiting _ _ _)) (Or.inr rfl)
+  | closeWrite =>
+    exact sinv_flag t _ _ _ h ⟨rfl, rfl, rfl, rfl⟩
+      (fun n hn => absurd hn (wakeR_not_waiting _ _)) (fun r n hn => absurd hn (wakeW_not_waiting _ _ _)) (Or.inr rfl)
+  | rtimer =>
+    exact sinv_flag t _ _ _ h ⟨rfl, rfl, rfl, rfl⟩
+      (fun n hn => absurd hn (wakeR_not_waiting _ _)) (fun r n hn => ⟨hn, rfl, rfl, Or.inl rfl⟩) (Or.inl rfl)
+  | wtimer =>
+    exact sinv_flag t _ _ _ h ⟨rfl, rfl, rfl, rfl⟩
+      (fun n hn => ⟨hn, rfl, rfl, Or.inl rfl⟩) (fun r n hn => absurd hn (wakeW_not_waiting _ _ _)) (Or.inr rfl)
+  | rclear =>
+    exact sinv_flag t _ _ _ h ⟨rfl, rfl, rfl, rfl⟩
+      (fun n hn => ⟨hn, rfl, rfl, Or.inr rfl⟩) (fun r n hn => ⟨hn, rfl, rfl, Or.inl rfl⟩) (Or.inl rfl)
+  | wclear =>
+    exact sinv_flag t _ _ _ h ⟨rfl, rfl, rfl, rfl⟩
+      (fun n hn => ⟨hn, rfl, rfl, Or.inl rfl⟩) (fun r n hn => ⟨hn, rfl, rfl, Or.inr rfl⟩) (Or.inl rfl)
